@@ -76,6 +76,26 @@ func genC02(engine string) func(t *rapid.T) c02Case {
 		h := genHistory(t, depth, 12)
 		class, slots, w := genDeletion(t, h, batch)
 		c := c02Case{Engine: engine, Class: class, Slots: slots, History: h.Steps, W: w}
+		if engine == "e2" && rapid.IntRange(0, 9).Draw(t, "alias_attack") == 0 {
+			// Coupled attack (see C01): every slot is valid for (index + r) mod 2^(depth+1), the presented index is
+			// that value minus the shift, and wide-enough index decompositions are answered with the bits of index + r.
+			shift := new(big.Int).Mod(ref.R, ref.Pow2(depth+1))
+			v := genValidDeletion(t, h, batch)
+			okAll := true
+			for i := range v.Idx {
+				if v.Idx[i].Cmp(shift) < 0 {
+					okAll = false
+				}
+			}
+			if okAll {
+				for i := range v.Idx {
+					v.Idx[i] = new(big.Int).Sub(v.Idx[i], shift)
+				}
+				c.W, c.Class, c.Slots = v, "alias-attack:index+r", nil
+				c.Strat = &HintStrategy{NB: "plus_kr", K: 1, N: -256, OnlyValues: ref.CloneSlice(v.Idx)}
+				return c
+			}
+		}
 		if engine == "e2" {
 			c.Strat = genCircuitStrategy(t, depth, w.Idx, true)
 		}
